@@ -157,10 +157,24 @@ Section ModelProofs.
     - unfold Hist.observe. rewrite (Ha1 Hn), (Hb1 Hn). reflexivity.
   Qed.
 
+  (* reading through a memo table: in every state that satisfies the invariant, a hit returns what a miss computes *)
+  Lemma cache_read_hit_equals_miss (g : G) : Inv g -> forall c es k v,
+    kl c = PureCache -> g c = Cache value key es -> cache_get es k = Some v -> v = F c k.
+  Proof.
+    intros HI c es k v Hk Hg Hc. destruct (HI c) as [_ H2]. rewrite Hk in H2.
+    destruct H2 as [es' [E V]]. rewrite Hg in E. inversion E. subst es'. exact (V k v Hc).
+  Qed.
+
   Lemma Inv_run : forall h (g : G), Inv g -> Inv (run g h).
   Proof.
     induction h as [|i t IH]; intros g HI; [exact HI|].
     cbn [Hist.run]. apply IH. unfold Hist.parse. cbn [snd]. apply Inv_steps. exact HI.
+  Qed.
+
+  Theorem cache_hit_equals_miss_reachable : forall (h : list I) c es k v,
+    kl c = PureCache -> run g0 h c = Cache value key es -> cache_get es k = Some v -> v = F c k.
+  Proof.
+    intros h c es k v. apply cache_read_hit_equals_miss. apply Inv_run. apply Inv_g0.
   Qed.
 
   Hypothesis out_ext : forall i f f', (forall c, f c = f' c) -> out_fn i f = out_fn i f'.
@@ -288,14 +302,6 @@ Proof. vm_compute. reflexivity. Qed.
 
 Lemma render_state_reset_ok : render_state_reset = true.
 Proof. vm_compute. reflexivity. Qed.
-
-(* the cells and classes of the model instance given by the tables *)
-Definition ws_table : list string := map w_target writes.
-Definition kl_table (c : string) : klass :=
-  match find (fun w => String.eqb (w_target w) c) writes with
-  | Some w => match classify w with Some k => k | None => Leak end
-  | None => NotInParse
-  end.
 
 Lemma table_no_leak_b : forallb (fun c => negb (klass_eqb (kl_table c) Leak)) ws_table = true.
 Proof. vm_compute. reflexivity. Qed.
